@@ -19,7 +19,10 @@ EXPR_POOL = [
     # Rust's own operators that share characters with DSL operators
     "|v| v << 2", "1 << 3", "a << b << c", "|v| v >> 2 << 1", "a || n > b", "a | b", "a & b && c", "a == b", "a != b", "a >= b",
     "a < b", "a > b", "|x| x ^ 1", "a % b / c", "!a != !b", "a - -b", "|x| -> u8 { x << 1 }", "a << m!(b |> c)",
+    # operands that end in a word which, followed by `=>`, looks like a handler definition
+    "cfg.map", "Steps::and_then", "then",
 ]
+KEYWORD_POOL = ["then", "map", "and_then", "cfg.map", "Steps::and_then", "s.0.then", "m::map"]
 DOT_POOL = ["unwrap()", "iter().map(|x| m!(x |> y))", "0", "field", "await", "a.b()", "0.1", "collect::<Vec<Vec<u8>>>()", "get(1..2)"]
 TYPE_POOL = ["Vec<u8>", "Vec<_>", "std::collections::HashMap<u8, Vec<u8>>", "(u8, u16)", "[u8; 2]", "&'a str", "Vec<Vec<u8>>",
              "Box<dyn Fn(u8) -> Vec<u8>>"]
@@ -175,6 +178,26 @@ def triple_progs(stride=1):
                 ob = {0: [], 1: ["fb"], 2: ["ib", "fb"], "dot": ["db()"], "t1": ["Vec<u8>"], "t4": []}[b[2]]
                 p.branches.append((None, "init", [M(a, False, "N", [o]), M(b, False, "N", ob)]))
                 out.append(p)
+    return out
+
+
+def keyword_progs():
+    """operands ending in `map` / `then` / `and_then` directly before `=>`, `=>[]` and other operators: the handler
+    look-alike may only split an operand that is complete"""
+    out = []
+    by = {o[0]: o for o in G.OPS}
+    followers = [by[x] for x in ("=>", "=>[]", "|>", "<=", "->") if x in by]
+    for a in G.OPS:
+        if a[2] != 1:
+            continue
+        for o in KEYWORD_POOL:
+            for b in followers:
+                for deferred in (False, True):
+                    p = Prog()
+                    ob = {0: [], 1: ["fb"], "t1": ["Vec<u8>"]}[b[2]]
+                    init = "x.map" if (len(out) % 2) else "init"
+                    p.branches.append((None, init, [M(a, False, "N", [o]), M(b, deferred, "N", ob)]))
+                    out.append(p)
     return out
 
 
